@@ -24,6 +24,14 @@ Definition req_ids (l : list Server.cmsg) : list N :=
   flat_map (fun m => match m with Server.MReq id _ _ _ => [id] | Server.MCancel _ _ => [] end) l.
 Definition has_cancel (id : N) (l : list Server.cmsg) : Prop := exists tr, In (Server.MCancel id tr) l.
 
+(* every request of the list satisfies P (id, deadline, what follows it) *)
+Fixpoint reqs_ok (P : N -> N -> list Server.cmsg -> Prop) (l : list Server.cmsg) : Prop :=
+  match l with
+  | [] => True
+  | Server.MReq id dl _ _ :: r => P id dl r /\ reqs_ok P r
+  | Server.MCancel _ _ :: r => reqs_ok P r
+  end.
+
 Definition ifl (c : cstate) : list N := map fst (Client.inflight c).
 Definition hids (s : sstate) : list N := map Server.h_id (Server.s_handlers s).
 Definition tids (s : sstate) : list N := map Server.e_id (Server.s_inflight s).
@@ -40,8 +48,7 @@ Record sent_id (c : cstate) (id : N) : Prop := {
 Record cross (T : N) (pend : list N) (c : cstate) (l : link) (s : sstate) : Prop := {
   x_cgone : l_cgone l = false;
   x_sgone : l_sgone l = false;
-  x_req : forall l1 id dl tr b l2, l_c2s l = l1 ++ Server.MReq id dl tr b :: l2 ->
-            In id (ifl c) \/ has_cancel id l2 \/ (dl <= T)%N;
+  x_req : reqs_ok (fun id dl rest => In id (ifl c) \/ has_cancel id rest \/ (dl <= T)%N) (l_c2s l);
   x_trk : forall e, In e (Server.s_inflight s) ->
             In (Server.e_id e) (ifl c) \/ has_cancel (Server.e_id e) (l_c2s l)
             \/ exists w, In (Server.e_id e, w) (Server.s_timers s) /\ (w <= T)%N;
@@ -52,6 +59,7 @@ Record cross (T : N) (pend : list N) (c : cstate) (l : link) (s : sstate) : Prop
   x_clamp : forall id dl tr b, In (Server.MReq id dl tr b) (l_c2s l) -> (dl <= T + MAXT)%N;
   x_nodup : NoDup (req_ids (l_c2s l) ++ hids s ++ pend);
   x_sent : forall id, In id (req_ids (l_c2s l) ++ hids s ++ pend) -> sent_id c id;
+  x_keys : map fst (Server.s_timers s) = tids s;
   x_trk_h : forall id, In id (tids s) -> In id (hids s ++ pend);
   x_s2c_h : forall r, In r (l_s2c l) -> In (Client.r_id r) (hids s);
   x_s2c_u : forall r, In r (l_s2c l) -> ~ In (Client.r_id r) (tids s) }.
@@ -61,7 +69,6 @@ Definition live_st (st : Server.hstate) : bool :=
   match st with Server.HDone | Server.HGone => false | _ => true end.
 
 Record srv_inv (s : sstate) : Prop := {
-  sv_keys : map fst (Server.s_timers s) = tids s;
   sv_cancels : Server.s_cancels s = [];
   sv_dropped : Server.s_dropped s = false;
   sv_fused : Server.s_fused s = false;
